@@ -55,7 +55,80 @@ def only_err_from(ctx, body, start):
     return not any(x in cfg.exits for x in r), r
 
 
+def check_walkfiles(ctx, out, rule="C12.walkfiles"):
+    """The directory walk hands on every entry it gets from the `ignore` walker except directories:
+    in `FileSystemImpl::walk` an entry is dropped (filter_map -> None / filter -> false) only when
+    `Path::is_dir(entry.path())` holds — which follows symbolic links, so a linked file is still a
+    file — and a walker error is passed on as an error. Any other reason to drop an entry makes a
+    file in scope invisible (its unbalanced tags included)."""
+    from rules.shared import TRUNCATING
+    n = 0
+    wb = None
+    for b in ctx.facts.bodies.values():
+        if b.promoted is None and b.kind == "AssocFn" and re.search(r"^<blockwatch::blocks::FileSystemImpl as blockwatch::blocks::FileSystem>::walk$", b.id):
+            wb = b
+    if wb is None:
+        out.inst(rule, 0, 2, note="FileSystemImpl::walk not found")
+        return
+    for bi, t in wb.calls():
+        if callee_matches(t, TRUNCATING.pattern) or callee_matches(t, r"Iterator::(flat_map|flatten|rev|chain|zip)$"):
+            out.viol(rule, "%s|adaptor|%s" % (rule, callee_name(t).split("::")[-1]), ctx.where(wb, t["span"]),
+                     "the walker's entries pass through `%s`: entries can be left out" % callee_name(t).split("::")[-1])
+    ISDIR = r"^std::path::Path::is_dir$"
+    found = False
+    for cb in ctx.facts.with_descendants(wb):
+        if cb.kind != "Closure":
+            continue
+        v = ctx.inl(cb, skip=ctx.domain_api, tag="domain", sugar=True)
+        cfg = cfg_of(v)
+        rty = v.local_ty(0)
+        drops = []
+        if rty.startswith("std::option::Option<"):
+            for bi, j, s in v.assigns():
+                rv = s["rv"]
+                if bi in cfg.reachable and s["lhs"]["l"] == 0 and not s["lhs"]["p"] and rv["k"] == "agg" and rv.get("agg") == "adt" and rv.get("variant") in ("None", 0) and rv.get("path", "").endswith("option::Option"):
+                    drops.append((bi, s["span"], None))
+            found = True
+        elif rty == "bool" and any(callee_matches(t, r"Iterator::filter$") for _, t in wb.calls()):
+            for bi, j, s in v.assigns():
+                rv = s["rv"]
+                if bi in cfg.reachable and s["lhs"]["l"] == 0 and not s["lhs"]["p"]:
+                    e = ctx.expr(v).rvalue(rv)
+                    drops.append((bi, s["span"], e))
+            found = True
+        else:
+            continue
+        for bi, span, e in drops:
+            if e is not None:
+                # filter closure: the kept-condition must be exactly !is_dir(path)
+                if e[0] == "un" and e[1] == "Not" and e[2][0] == "call" and re.search(ISDIR, e[2][1]):
+                    n += 1
+                elif e[0] == "const":
+                    if e[1] in (0, False):
+                        gs = util.guards(ctx, v, bi)
+                        if any(g[2][0] == "call" and re.search(ISDIR, g[2][1]) and 0 not in g[1] for g in gs) and all((g[2][0] == "call" and re.search(ISDIR, g[2][1])) or g[2][0] in ("discr",) or "discr" in render(g[2], 80) for g in gs):
+                            n += 1
+                        else:
+                            out.viol(rule, "%s|extra-skip" % rule, ctx.where(v, span), "the walk drops an entry for a reason other than `path.is_dir()`")
+                else:
+                    out.viol(rule, "%s|extra-skip" % rule, ctx.where(v, span), "the walk keeps an entry iff `%s`; expected `!path.is_dir()`" % render(e, 120))
+                continue
+            gs = util.guards(ctx, v, bi)
+            isdir = [g for g in gs if g[2][0] == "call" and re.search(ISDIR, g[2][1]) and 0 not in g[1]]
+            other = [g for g in gs if not (g[2][0] == "call" and re.search(ISDIR, g[2][1])) and not (v.blocks[g[0]]["term"].get("op_ty", "") != "bool" and any(x[0] in ("param",) or (x[0] == "var" and isinstance(x[1], int) and 1 <= x[1] <= v.argc) for x in walk(g[2])))]
+            if isdir and not other:
+                n += 1
+            else:
+                why = ", ".join(render(g[2], 90) for g in (other or gs)[:3])
+                out.viol(rule, "%s|extra-skip" % rule, ctx.where(v, span),
+                         "the directory walk drops an entry under the condition [%s]; the only entries to leave out are directories as `Path::is_dir()` sees them (following symbolic links): with any other test a file in scope — a symbolic link to a file, for instance — is never read, so its blocks and its unbalanced tags go unnoticed" % why)
+    if not found:
+        out.viol(rule, "%s|anchor" % rule, ctx.where(wb), "no filter / filter_map closure found in FileSystemImpl::walk")
+    out.inst(rule, n, 1, note="drop sites of the walk closure(s): each guarded by Path::is_dir(path) only")
+
+
 def run(ctx, out, tier):
+    check_walkfiles(ctx, out)
     # ------------------------------------------------------------------ C12.stack
     pf = pairing_fn(ctx)
     n = 0
@@ -164,6 +237,8 @@ def run(ctx, out, tier):
     if fp is None:
         out.viol("C12.through", "C12.through|file-parser", "-", "file parser (read_to_string + BlocksParser::parse) not found")
     else:
+        from rules.C02 import check_consume
+        check_consume(ctx, out, fp, "C12.consume")
         cfg = cfg_of(fp)
         E = ctx.expr(fp)
         # the parse error carries the file path
